@@ -105,7 +105,15 @@ TermListCorr(Pb, Pk, kinds, qL) ==
         spanR == LET RECURSIVE Mx(_)
                      Mx(b) == IF b = 0 THEN 0 ELSE IMax(Span(TL.tr[b]), Mx(b - 1))
                  IN Mx(Len(TL.tr))
-    IN [tl |-> TL.tl, sL |-> TL.sL, tr |-> TL.tr, sR |-> TL.sR,
+        \* default j_R of a finite MPS (documented): the right terms start one site right of the left terms, i.e.
+        \* j0 = i_L + max_L + 1 - min_R; here with the right terms shifted by one site (min_R = 1): j = 0 .. n - 2 - spanR
+        tr1 == [b \in 1..Len(TL.tr) |-> Shift(TL.tr[b], 1)]
+    IN [tl |-> TL.tl, sL |-> TL.sL, tr |-> TL.tr, sR |-> TL.sR, tr1 |-> tr1,
+        valdef |-> [j \in {j \in 0..(n - 1) : j + 1 + spanR < n} |->
+                   GSumSeq([x \in 1..(Len(TL.tl) * Len(TL.tr)) |->
+                       LET a == ((x - 1) \div Len(TL.tr)) + 1
+                           b == ((x - 1) % Len(TL.tr)) + 1
+                       IN GScale(TL.sL[a] * TL.sR[b], EvTerm(Pb, Pk, kinds, qL, TL.tl[a] \o Shift(tr1[b], j)))])],
         val |-> [j \in {j \in 1..(n - 1) : j + spanR < n} |->
                    GSumSeq([x \in 1..(Len(TL.tl) * Len(TL.tr)) |->
                        LET a == ((x - 1) \div Len(TL.tr)) + 1
@@ -137,11 +145,39 @@ MeasureTable(Pb, Pk, kinds, cons, qL) ==
                    [i \in {i \in S0 : i + Span(tp[1]) < n - 1 - Span(tp[2])} |->
                        EvTerm(Pb, Pk, kinds, qL, Shift(tp[1], i) \o Shift(tp[2], n - 1 - Span(tp[2])))]]]
 
+\* sample_measurements(first_site, last_site, ops): site i is measured in the eigenbasis of ops[(i - first_site) % len(ops)];
+\* an outcome is the sequence of eigenvalues lam_i (here +1 / -1 of Pauli-type operators; "Sz" = Sigmaz / 2 is measured
+\* through Sigmaz), its probability <psi| prod_i (1 + lam_i O_i) / 2 |psi> / <psi|psi>.  The table gives the numerators
+\* <psi| prod_i (1 + lam_i O_i) |psi> for every outcome.
+SampleOps == << <<"Sigmaz", "Sz">>, <<"Sigmax", "Sigmaz">>, <<"Sigmax", "Sigmay", "Sigmaz">> >>
+ProjOp2(kind, name, lam) == MAdd(MId(2), MScale(<<lam, 0>>, OpMat(kind, name)))
+SampleTable(P, kinds, cons) ==
+    LET n == Len(kinds) IN
+    IF \A k \in 1..n : kinds[k] = "H" THEN
+        [x \in {y \in (1..3) \X (0..1) : (y[1] = 1 \/ cons = "none") /\ y[2] < n} |->
+            LET ops == SampleOps[x[1]]
+                f == x[2]
+            IN [lam \in [1..(n - f) -> {-1, 1}] |->
+                  Braket(P, ApplyOps(P, [k \in 1..n |-> IF k - 1 < f THEN MId(2)
+                                                        ELSE ProjOp2("H", ops[((k - 1 - f) % Len(ops)) + 1], lam[k - f])], n))]]
+    ELSE <<>>
+
+\* correlation_function with LISTS of operator names: site i uses ops[(i mod L) mod len(ops)]; autoJW has to follow the
+\* operators that are actually used.  Entries <<ops1, ops2, i, j>> with fermionic operators on both sites.
+ListCorr(Pb, Pk, kinds, ucell) ==
+    LET n == Len(kinds)
+        cases == {<<<<"N", "Cd">>, <<"N", "N", "C">>, 1, 2>>, <<<<"Cd", "N">>, <<"N", "C">>, 3, 1>>, <<<<"Cd", "N">>, <<"N", "C">>, 0, 3>>}
+        opat(ops, i) == ops[((i % ucell) % Len(ops)) + 1]
+    IN IF \A k \in 1..n : kinds[k] = "F" THEN
+          [c \in {c \in cases : c[3] < n /\ c[4] < n /\ opat(c[1], c[3]) = "Cd" /\ opat(c[2], c[4]) = "C"} |->
+              Braket(Pb, ApplyOps(Pk, CorrOps(kinds, "Cd", "C", "JW", TRUE, c[3], c[4]), n))]
+       ELSE <<>>
+
 \* measurements of one state (after canonical_form in the implementation)
 Measure ==
     /\ phase = "live" /\ mode = "raw" /\ nops = 0 /\ "measure" \in Ops
     /\ Len(psi.val) <= 128 /\ AbsLE(psi, 60) /\ (R.bc = "segment" => R.known)
-    /\ (Inf(R) => TNorm2(psi) = 1)                   \* infinite bc: normalized product states, measured on the window
+    /\ (Inf(R) => \A b \in 1..Len(R.S) : Len(R.S[b]) = 1)   \* infinite bc: product states (normalized by the harness), on the window
     /\ LET kinds == [k \in 1..NSites(psi) |-> R.kinds[((k - 1) % NL(R)) + 1]]
            qL == QL(R)
        IN /\ last' = [op |-> "measure"]
@@ -150,6 +186,8 @@ Measure ==
           /\ Rec([op |-> "measure", kinds |-> kinds, cons |-> R.cons, bc |-> R.bc,
                   tab |-> MeasureTable(psi, psi, kinds, R.cons, qL),
                   rho |-> [seg \in SegKeys(NSites(psi)) |-> RhoSeg(psi, seg)],
+                  sample |-> SampleTable(psi, kinds, R.cons),
+                  lcorr |-> ListCorr(psi, psi, kinds, NL(R)), ucell |-> NL(R),
                   charge |-> IF R.cons # "none" /\ R.bc = "finite"
                              THEN [b \in 1..(NL(R) - 1) |-> ChargeProb(psi, kinds, R.cons, b)] ELSE <<>>])
 
@@ -157,14 +195,7 @@ Measure ==
 MeasureEnv(v, n2) ==
     /\ phase = "live" /\ mode = "raw" /\ nops = 0 /\ "measure_env" \in Ops
     /\ R.known /\ ~Inf(R) /\ NL(R) >= 2 /\ Len(psi.val) <= 128 /\ AbsLE(psi, 60)
-    /\ LET chis == [b \in 1..(NL(R) + 1) |-> Len(R.S[b])]
-           R2 == [MkRepChis(R.bc, R.kinds, chis, R.cons, FormPat(3 + 2 * v, NL(R)), v + 2, TRUE) EXCEPT !.qb = R.qb]
-           \* with charges: same bond charges as the ket, entries by the same selection rule
-           Rb == IF R.cons = "none" THEN R2
-                 ELSE LET Gm == GenB(R.kinds, R.cons, chis, R.qb, v + 2, TRUE)
-                          f == FormPat(3 + 2 * v, NL(R))
-                      IN [R2 EXCEPT !.B = [i \in 1..NL(R) |-> ScaleB(Gm[i], R.S[i], R.S[i + 1], Nu2(f[i])[1], Nu2(f[i])[2])],
-                                    !.S = R.S]
+    /\ LET Rb == OtherRep(R, v, v)       \* with charges and v = 1: another gauge of the bond charges
            Pb == Contract(Rb)
            f12 == nrm * n2
            tab == MeasureTable(Pb, psi, R.kinds, R.cons, QL(R))
@@ -181,8 +212,8 @@ DoMeasureEnv == phase = "live" /\ \E v \in 0..1, n2 \in {1, 2} : (n2 = 2 => v = 
 Start8 == phase = "init" /\
     \/ \E bc \in BCs \ {"infinite"}, n \in 2..MaxL, cp \in 1..2, kp \in 1..5, cn \in 0..2, fp \in 1..6, v \in 0..1, cx \in 0..1, nr \in {1, 3} :
             /\ (nr = 3 => (fp + v) % 3 = 0) /\ New(bc, n, cp, kp, cn, fp, v, cx, nr)
-    \/ \E bc \in BCs, n \in 1..MaxL, kp \in 1..5, cn \in 0..2, f \in {"B", "A", "C"}, v \in 0..1, how \in {"int", "label"} :
-            /\ (bc # "infinite" => n >= 2) /\ Product(bc, n, kp, cn, f, v, how)
+    \/ \E bc \in BCs, n \in 1..MaxL, kp \in 1..5, cn \in 0..2, f \in {"B", "A", "C"}, v \in 0..1, how \in {"int", "label", "array"} :
+            /\ (bc # "infinite" => n >= 2) /\ (how = "array" => bc = "infinite") /\ Product(bc, n, kp, cn, f, v, how)
 DoStart8 == Start8
 Next8 == DoStart8 \/ DoMeasure \/ DoMeasureEnv
 Spec8 == Init /\ [][Next8]_vars
